@@ -51,7 +51,8 @@ template <class X> void run(Ctx& c, const Str& Bs, const Str& Rs, const char* ge
     if (c.rng.chance(1, 4)) B.make_owner();
     if (c.rng.chance(1, 4)) R.make_owner();
     // a caller may fill in the structures itself: any non-zero absolutePath means "yes" (the model does not care how it is spelled)
-    if (c.rng.chance(1, 10)) { static const int T[] = {2, -1, 0x100, 0x7FFFFFFF}; if (B.u.absolutePath) B.u.absolutePath = T[c.rng.below(4)]; if (R.u.absolutePath) R.u.absolutePath = T[c.rng.below(4)]; c.count("non_canonical_absolute_path_flag"); }
+    bool oddFlag = false;
+    if (c.rng.chance(1, 10)) { oddFlag = true; static const int T[] = {2, -1, 0x100, 0x7FFFFFFF}; if (B.u.absolutePath) B.u.absolutePath = T[c.rng.below(4)]; if (R.u.absolutePath) R.u.absolutePath = T[c.rng.below(4)]; c.count("non_canonical_absolute_path_flag"); }
     Comp mb = split(Bs), mr = split(Rs);
     c.note(fmt("%s resolve base=\"%s\" ref=\"%s\"", X::tag(), esc(Bs.substr(0, 150)).c_str(), esc(Rs.substr(0, 150)).c_str()));
     Ledger led;
@@ -120,6 +121,7 @@ template <class X> void run(Ctx& c, const Str& Bs, const Str& Rs, const char* ge
             else { ObjView v = D.view(); Comp held = v.c; Comp Tm = T; Str d = comp_diff(held, Tm); if (!v.malformed.empty()) d = ""; if (!d.empty() && d != "path") c.violation("C06", fmt("resolve/%s/component/%s", X::tag(), d.c_str()), what + fmt(" library=%s model=%s", held.describe().c_str(), Tm.describe().c_str())); }
         }
         c.distinct(hash_str(Bs + "\x01" + Rs, (uint64_t)compat));
+        if (out == expect && !oddFlag) produced_equals_own_text<X>(c, D.u, "resolve", "addbase", what);     // a hand-set flag value travels into the result: not a library-produced URI in C11's sense
         D.free_members();
         if (variant == 3) {
             if (led.outstanding()) { c.violation("C13", fmt("resolve/%s/leak-after-free", X::tag()), what + " " + led.describe_live()); led.release_all(); }
